@@ -64,6 +64,33 @@ example : hashData (id : List Nat → List Nat) [1, 2, 3] = [1, 2, 3] := by deci
 
 end CS.FsHash
 
+/-! ## Filesystem provider: integer cursors -/
+namespace CS.FsCursor
+
+/-- `current_cursor = k` for any int `0 ≤ k ≤ latest` then a drain: exactly the stamps `k+1 … latest` -/
+theorem fs_rewind_replays_suffix (s : St) (k : Nat) (hk : k ≤ s.latest) :
+    (setCursor s (.int k)).2 = .ok ∧
+    (drain (setCursor s (.int k)).1).2 = (List.range (s.latest - k)).map (fun i => k + i + 1) ∧
+    (drain (setCursor s (.int k)).1).2.length = s.latest - k ∧
+    (drain (setCursor s (.int k)).1).1.cursor = s.latest := by
+  have h1 : ¬ k > s.latest + 1 := by omega
+  simp [setCursor, h1, drain, Nat.max_eq_right hk]
+
+/-- the setter's other branches: `latest + 1` is accepted (nothing to drain), beyond that and non-ints are
+    CloudCursorError and change nothing, `None` jumps to the latest cursor -/
+theorem fs_setCursor_branches (s : St) :
+    (setCursor s (.int (s.latest + 1))).2 = .ok ∧ (drain (setCursor s (.int (s.latest + 1))).1).2 = [] ∧
+    (∀ k, k > s.latest + 1 → setCursor s (.int k) = (s, .cursorErr)) ∧
+    setCursor s .other = (s, .cursorErr) ∧
+    (setCursor s .none).1.cursor = s.latest ∧ (drain (setCursor s .none).1).2 = [] := by
+  refine ⟨by simp [setCursor], by simp [setCursor, drain], ?_, rfl, rfl, by simp [setCursor, drain]⟩
+  intro k hk
+  simp [setCursor, hk]
+
+example : (drain (setCursor { cursor := 3, latest := 3 } (.int 0)).1).2 = [1, 2, 3] := by decide
+
+end CS.FsCursor
+
 /-! ## Provider.connect: credentials of another identity are refused -/
 namespace CS.Conn
 variable {Cr : Type}
@@ -243,26 +270,28 @@ theorem mkCfg_COk2 (cs : Bool) : COk2 (mkCfg cs false) where
     subst ha
     exact (simpleLower_eq_backslash x).1 hx
 
-/-- **mock_refines_tree** — for every call sequence, both id styles and both case modes: every return value
-    and error class of the mock is the reference tree's (`ResRel`: same kind / hash / size / path / name,
-    same error class, listings equal as sets), and after every call the live part of the object table, read
-    through its path keys, *is* the tree (`Rel`).
+/-- **mock_refines_tree** — for every call sequence, both id styles and both case modes, every operation
+    (folder renames included: everything beneath the folder moves with it, an empty folder at the destination is
+    replaced): every return value and error class of the mock is the reference tree's (`ResRel`: same kind / hash /
+    size / path / name, same error class, listings equal as sets, returned id = path for path style), and after every
+    call the live part of the object table, read through its path keys, *is* the tree (`Rel`), which stays well
+    formed (`Tree.TWf`: every entry's parent is a directory entry).
 
-    Hypotheses (`Guarded`, evaluated along the run): path arguments are clean; `rename` never targets the
-    root, is handed an id (not a path) by id-style callers, and — the stated subset of this proof — moves a
-    file.  Path-style flavours additionally need case-folded names (`Clean`), which is vacuous when case
-    sensitive; see `path_ci_*` below for what happens otherwise.  Folder renames are in the model and the
-    correspondence, not in this theorem. -/
+    Hypotheses (`Guarded`, evaluated along the run): path arguments are clean; `delete` does not target the root;
+    `rename` never targets the root, is handed an id (not a path) by id-style callers, and its destination does not lie
+    strictly beneath its source (open finding mock-rename-into-own-subtree).  Path-style flavours additionally need
+    case-folded names (`Clean`), which is vacuous when case sensitive; see `path_ci_*` below for what happens
+    otherwise. -/
 theorem mock_refines_tree {c : Cfg} (hc : COk2 c) (fl : Flavour) (hfs : c.sep ∉ fl.forbidden) (hcfg : HashCfg C H)
     (ops : List (Op C)) (hg : Guarded c fl hcfg (init c fl) ops) :
     Agree c fl hcfg (init c fl) (Tree.init : Tree.T C) ops :=
-  (agree_of_inv hc hfs hcfg ops (init_inv_rel hc fl).1 (init_inv_rel hc fl).2 hg).1
+  (agree_of_inv hc hfs hcfg ops (init_inv_rel hc fl).1 (init_inv_rel hc fl).2 Tree.twf_init hg).1
 
 /-- the object-table invariant holds in every reachable state -/
 theorem reachable_inv {c : Cfg} (hc : COk2 c) (fl : Flavour) (hfs : c.sep ∉ fl.forbidden) (hcfg : HashCfg C H)
     (ops : List (Op C)) (hg : Guarded c fl hcfg (init c fl) ops) :
     Inv c fl (run c fl hcfg (init c fl) ops).1 :=
-  (agree_of_inv hc hfs hcfg ops (init_inv_rel hc fl).1 (init_inv_rel hc fl).2 hg).2
+  (agree_of_inv hc hfs hcfg ops (init_inv_rel hc fl).1 (init_inv_rel hc fl).2 Tree.twf_init hg).2
 
 /-! ## Object ids -/
 
@@ -309,16 +338,15 @@ theorem rename_returns_given_oid (c : Cfg) (fl : Flavour) (hcfg : HashCfg C H) (
                     subst h
                     simpa [hid] using hn2
 
-/-- **oid_stable_under_rename** — renaming a file (guarded call in a reachable state): the returned id is the
-    given id for id-style flavours and the new path for path-style ones, and it resolves to a live object that
-    now reports the new path -/
+/-- **oid_stable_under_rename** — renaming a file or a folder (guarded call in a reachable state): the returned id
+    is the given id for id-style flavours, and it resolves to a live object that now reports the new path -/
 theorem oid_stable_under_rename {c : Cfg} (hc : COk2 c) {fl : Flavour} (hcfg : HashCfg C H) {s : St C} {t : Tree.T C}
-    (hi : Inv c fl s) (hr : Rel c s t) (oid p x : Str) (hok : OpOk c fl s (.rename oid p))
+    (hi : Inv c fl s) (hr : Rel c s t) (hw : Tree.TWf t) (oid p x : Str) (hok : OpOk c fl s (.rename oid p))
     (hres : (step c fl hcfg s (.rename oid p)).2 = .oid x) :
     (fl.oip = false → x = oid) ∧
     (∃ i, (step c fl hcfg (step c fl hcfg s (.rename oid p)).1 (.infoOid x)).2 = .info i ∧ i.oid = x ∧ i.path = p) := by
   refine ⟨fun hid => rename_returns_given_oid c fl hcfg s oid p x hid hres, ?_⟩
-  obtain ⟨o', h1, h2, h3⟩ := (sim_rename_file hc hcfg hi hr oid p hok.1 hok.2.1 hok.2.2.1 hok.2.2.2).1 x hres
+  obtain ⟨o', h1, h2, h3⟩ := (sim_rename hc hcfg hi hr hw oid p hok).1 x hres
   refine ⟨infoOfObj c hcfg o', ?_, h3, h2⟩
   show (match liveObj (rename c fl hcfg s oid p).1 x with
     | some ob => Res.info (infoOfObj c hcfg ob) | none => Res.none) = _
@@ -506,14 +534,13 @@ theorem delete_appends_event (c : Cfg) (fl : Flavour) (hcfg : HashCfg C H) (s : 
     id, `exists = True`, and — path style — the previous id as `prior_oid` -/
 theorem rename_appends_event {c : Cfg} (hc : COk2 c) {fl : Flavour} (hcfg : HashCfg C H) {s : St C}
     (hi : Inv c fl s) (oid p : Str) (hok : OpOk c fl s (.rename oid p)) (h : Nat) (o : Obj C)
-    (hg : getObj s oid = some (h, o)) (hl : o.live = true) (hmoved : o.path ≠ p)
+    (hg : getObj s oid = some (h, o)) (hl : o.live = true) (hk : o.kind = .file) (hmoved : o.path ≠ p)
     (x : Str) (hres : (step c fl hcfg s (.rename oid p)).2 = .oid x) :
     (step c fl hcfg s (.rename oid p)).1.events = s.events ++
       [{ action := .rename, oid := x, kind := .file, path := p,
          prior := if fl.oip then some o.oid else none, trashed := false }] := by
-  obtain ⟨hp, hpn, harg, hfile⟩ := hok
+  obtain ⟨hp, hpn, harg, _⟩ := hok
   have hho := (getObj_some.1 hg).2
-  have hk : o.kind = .file := hfile h o (by rw [pv_of_getObj hg, hl]; rfl)
   have hoeq := oid_of_resolved hc hi harg hg
   -- the tail of `rename` once nothing blocks it
   have htail : ((if (o.path == p) = true then (s, Res.oid oid)
@@ -607,6 +634,49 @@ theorem every_mutation_is_eventually_an_event (c : Cfg) (fl : Flavour) (hno : fl
   refine ⟨translateEvent fl ev s.events.length, drain_delivers fl { s' with cursor := cur } s.events.length ev hcur hidx, ?_⟩
   exact translateEvent_id_exists fl hno ev _
 
+/-! ## Rewinding the cursor -/
+
+/-- **rewind_replays_suffix** — `current_cursor = c` for an int `c ≥ -1` (model value `k = c + 1`, so the
+    initial cursor -1 is `k = 0` and Python's cursor 0 — exactly one event consumed — is `k = 1`), followed by a
+    drain of `events()`: exactly the log entries with Python index `> c` are delivered, in log order, each
+    stamped with its own index; nothing else; the cursor ends at the latest cursor. -/
+theorem rewind_replays_suffix (c : Cfg) (fl : Flavour) (hcfg : HashCfg C H) (s : St C) (k : Nat) :
+    let s1 := (step c fl hcfg s (.setCursor (.int k))).1
+    (step c fl hcfg s (.setCursor (.int k))).2 matches .unit ∧
+    s1.events = s.events ∧
+    (drain fl s1).2 = ((s.events.drop k).zipIdx k).map (fun (pe, i) => translateEvent fl pe i) ∧
+    (drain fl s1).2.length = s.events.length - k ∧
+    (k ≤ s.events.length → (drain fl s1).1.cursor = s.events.length) :=
+  ⟨rfl, rfl, rfl, by simp [drain, step, setCursor], fun hk => by simp [drain, step, setCursor, Nat.max_eq_right hk]⟩
+
+/-- a cursor saved earlier (`k ≤` the log length then) still replays everything logged since, whatever was
+    called in between: the drain after the rewind delivers every entry the intermediate calls appended -/
+theorem rewind_to_saved_cursor_replays_everything_since (c : Cfg) (fl : Flavour) (hcfg : HashCfg C H) (s : St C)
+    (ops : List (Op C)) (k : Nat) (hk : k ≤ s.events.length) :
+    let s' := (run c fl hcfg s ops).1
+    let s1 := (step c fl hcfg s' (.setCursor (.int k))).1
+    ∃ t, s'.events = s.events ++ t ∧
+      (drain fl s1).2 = (((s.events ++ t).drop k).zipIdx k).map (fun (pe, i) => translateEvent fl pe i) ∧
+      (drain fl s1).2.length = (s.events.length - k) + t.length := by
+  intro s' s1
+  obtain ⟨t, ht⟩ := event_log_append_only c fl hcfg ops s
+  refine ⟨t, ht, ?_, ?_⟩
+  · show ((s'.events.drop k).zipIdx k).map _ = _
+    rw [ht]
+  · show (((s'.events.drop k).zipIdx k).map _).length = _
+    rw [ht]; simp; omega
+
+/-- the other two branches of the setter: `None` jumps to the latest cursor (the next drain is empty), anything
+    that is not an int raises CloudCursorError and changes nothing -/
+theorem setCursor_none_and_other (c : Cfg) (fl : Flavour) (hcfg : HashCfg C H) (s : St C) :
+    (drain fl (step c fl hcfg s (.setCursor .none)).1).2 = [] ∧
+    (step c fl hcfg s (.setCursor .none)).1.cursor = s.events.length ∧
+    (step c fl hcfg s (.setCursor .other)).2 matches .cursorErr ∧
+    (step c fl hcfg s (.setCursor .other)).1.cursor = s.cursor ∧
+    (step c fl hcfg s (.setCursor .other)).1.events = s.events := by
+  refine ⟨?_, rfl, rfl, rfl, rfl⟩
+  simp [drain, step, setCursor]
+
 /-! ## Kernel-checked witnesses: where the contract is *not* met, and non-vacuity -/
 
 def wH : HashCfg Nat Nat := { hashOf := id, sizeOf := id }
@@ -673,22 +743,38 @@ theorem folder_rename_moves_children_one_event :
     s.events.length = s0.events.length + 1 := by
   decide +kernel
 
-/-- non-vacuity: a concrete guarded call sequence (clean paths, file rename) -/
+/-- a guard of the form "whatever the id resolves to satisfies a decidable condition on its path", by evaluation -/
+theorem guard_by_eval (s : St Nat) (oid : Str) (P : Str → Prop) [DecidablePred P]
+    (h : (match pv s oid with | some ho => decide (P ho.2.path) | none => true) = true) :
+    ∀ (h' : Nat) (o : Obj Nat), pv s oid = some (h', o) → P o.path := by
+  intro h' o hp
+  rw [hp] at h
+  simpa using h
+
+/-- the rename guard on the source's path -/
+def RenGuard (c : Cfg) (dst : Str) (path : Str) : Prop :=
+  foldL c (Path.C c path) <+: foldL c (Path.C c dst) → foldL c (Path.C c path) = foldL c (Path.C c dst)
+
+instance (c : Cfg) (dst path : Str) : Decidable (RenGuard c dst path) := by unfold RenGuard; infer_instance
+
+/-- non-vacuity: a concrete guarded call sequence (clean paths, a folder rename, a file rename, a delete) -/
 example : Guarded (mkCfg true false) ({ oip := false } : Flavour) wH (init (mkCfg true false) { oip := false })
-    [.mkdir "/d".toList, .create "/d/f".toList 3, .rename "2".toList "/d/g".toList, .delete "2".toList] := by
+    [.mkdir "/d".toList, .create "/d/f".toList 3, .rename "1".toList "/e".toList, .rename "2".toList "/e/g".toList,
+     .delete "2".toList] := by
   have hcl : ∀ (l : List Str), (∀ f ∈ l, f ≠ [] ∧ '/' ∉ f ∧ '\\' ∉ f) →
       Clean (mkCfg true false) ({ oip := false } : Flavour) (canon '/' l) := by
     intro l hl
     refine ⟨l, ⟨fun f hf => ⟨(hl f hf).1, (hl f hf).2.1⟩, fun f hf a ha => ?_⟩, rfl, fun h => by cases h⟩
     simp [mkCfg] at ha; subst ha; exact (hl f hf).2.2
-  refine ⟨hcl ["d".toList] (by decide), hcl ["d".toList, "f".toList] (by decide), ⟨hcl ["d".toList, "g".toList] (by decide), ?_, ?_, ?_⟩, trivial, trivial⟩
+  refine ⟨hcl ["d".toList] (by decide), hcl ["d".toList, "f".toList] (by decide),
+    ⟨hcl ["e".toList] (by decide), ?_, ?_, ?_⟩, ⟨hcl ["e".toList, "g".toList] (by decide), ?_, ?_, ?_⟩, ?_, trivial⟩
   · decide +kernel
   · intro _; decide
-  · intro h o hp
-    have : (pv (step (mkCfg true false) { oip := false } wH (step (mkCfg true false) { oip := false } wH
-        (init (mkCfg true false) { oip := false }) (.mkdir "/d".toList)).1 (.create "/d/f".toList 3)).1 "2".toList).map
-        (fun ho => ho.2.kind) = some .file := by decide +kernel
-    rw [hp] at this
-    simpa using this
+  · exact guard_by_eval _ _ (RenGuard (mkCfg true false) "/e".toList) (by decide +kernel)
+  · decide +kernel
+  · intro _; decide
+  · exact guard_by_eval _ _ (RenGuard (mkCfg true false) "/e/g".toList) (by decide +kernel)
+  · show resolve (mkCfg true false) _ "2".toList ≠ some []
+    decide +kernel
 
 end CS.MockFS
